@@ -231,7 +231,7 @@ func c12Gen(c *Ctx) {
 	raws := []string{"-", "01", hx(randBytes(c, 3)), hx(randBytes(c, 40)), hx(randBytes(c, 300))}
 	vars := []string{"PK", "KEK", "db", "dbx", "OrdA", "OrdB", "Ord0"}
 	for i := 0; i < c.N(150, 10000) && c.NFailures() < 6; i++ {
-		n := 2 + c.Rng.Intn(c.N(9, 29))
+		n := 2 + c.Rng.Intn(c.P(9, 29))
 		var ops []interface{}
 		for j := 0; j < n; j++ {
 			v := vars[c.Rng.Intn(len(vars))]
